@@ -435,6 +435,9 @@ def run(chk: Check) -> None:
     chk.evaluations = len(rec)
     for t in rec:
         chk.distinct.add(t["meta"])
+    from . import c17_accept
+
+    c17_accept.run(chk)
     chk.extra["cells"] = {"runs": len(rec), "rejected": len(res.rejected), "tcp_positions": TCP_POSITIONS, "setup_faults": SETUP_FAULTS_PLAIN + SETUP_FAULTS_TLS, "exception_classes": excs}
     chk.sample({"meta": rec[5]["meta"], "events": [(e["ev"], e["c"], e["i"], e["ok"]) for e in rec[5]["events"]]}, cap=3)
     for idx, pos_ in sorted(res.rejected.items())[:40]:
